@@ -8,6 +8,7 @@ git -C /repo apply "$P" || { echo "patch does not apply"; exit 3; }
 cd /verif && VERIF_DIR=/verif timeout 3000 bin/check "$C" "$T" > /tmp/try_seed.out 2>&1
 rc=$?
 git -C /repo checkout -- . 
+(cd /verif/harness && cargo build --offline -q 2>/dev/null)  # rebuild the worker from the clean tree
 echo "exit=$rc"
 grep -A 12 "^VIOLATION" /tmp/try_seed.out | head -40
 tail -1 /tmp/try_seed.out
